@@ -62,7 +62,8 @@ CLAIMED['C11'] = dict(
          'preserve every attribute the semantics reads (including reset_value, ROM data, memory id), so the copy '
          'is isomorphic and Spec.run-equal; a store model gives frame and freshness of allocation. CPython object '
          'identity/aliasing is observed per run: fingerprints of the source before/after each non-updating pass, '
-         'working-block identity, id() disjointness, edit/simulate sequences on either block.',
+         'working-block identity, id() disjointness, edit/simulate sequences on either block; memory attributes (name, '
+         'widths, port limits, id) of every result compared with the source, incl. memories used up to differing port limits.',
     design='4 C11',
     note=NOTE_COMMON + 'CPython object identity and aliasing are observed, not modelled.',
     technique='Lean 4 proof over translator-regenerated cloning functions + per-run observation of object identity')
@@ -257,7 +258,8 @@ CLAIMED['C20'] = dict(
          'PYTHONHASHSEED values and allocation-noise patterns that demonstrably permute the net sets, and verilog (three '
          'reset modes), testbench, VCD, print_trace texts and both simulators\' traces are compared byte for byte; every '
          'export/visualisation/analysis call is checked for structural (fingerprint) and behavioural (Lean Spec) side '
-         'effects; output_to_firrtl\'s in-place rewrites must preserve behaviour.',
+         'effects; output_to_firrtl\'s in-place rewrites must preserve behaviour (also under a non-zero default_value of the '
+         'real simulator). Design kinds: random, shared-enable write ports, names tying under the sort key, same-named memories.',
     design='4 C20',
     note=NOTE_COMMON + 'That every emitter routes every set iteration through a sorting helper is established by the differential, not by a theorem.',
     technique='Lean 4 proof (permutation-invariance of key sort) + cross-process differential over hash seeds and allocation patterns')
@@ -271,7 +273,9 @@ CLAIMED['C18'] = dict(
          'the publications against the real circuits: AES-128 (Appendix C vector, extreme and random keys/blocks), '
          'decryption inverts encryption, both state machines deliver the result when ready and hold it; xoroshiro128+, '
          'the 127-bit LFSR (taps 126/125, leaping bitwidth steps) and Trivium (after 1152 warm-up bits) for bitwidths '
-         '1..256 and bits_per_cycle 1..64 with several requests separated by idle cycles. PARTIAL: the round structure, '
+         '1..256 and bits_per_cycle 1..64 with several requests separated by idle cycles; random load/req interleavings '
+         '(coinciding pulses included) on the LFSR, reseeding of xoroshiro, several units with different keys built from one '
+         'AES object. PARTIAL: the round structure, '
          'key expansion and the PRNG state machines have no Lean model (oracle only).',
     design='4 C18',
     note=NOTE_COMMON + 'FIPS-197, xoroshiro128+, Trivium and the LFSR are transcribed by hand in the harness (AES also in Lean).',
@@ -285,7 +289,8 @@ CLAIMED['C12'] = dict(
          'construction equals the on-set semantics for covers of any size (induction); each .bench gate is correct on two '
          'sources, and the full n-source statement is proved FALSE of the importer (known finding bench-nary-gate, replayed '
          'on the real importer). Oracle: random BLIF files (general covers with don\'t-cares, constant/empty covers, .latch '
-         'init 0-3, every listed cell, one- and two-level .subckt nesting, outputs read internally, vector ports, both '
+         'init 0-3, every listed cell, one- and two-level .subckt nesting, several sub-models, per-model clock formal names '
+         'that are data ports elsewhere, buffered clocks, outputs read internally, vector ports, both '
          'merge_io_vectors settings) and random .bench files are imported by the real functions, the imported block is run '
          'in the Lean Spec model and compared cycle by cycle with an interpreter of the file. The parser and the model/vector '
          'wiring are covered by that comparison only, not by a theorem.',
@@ -304,7 +309,8 @@ CLAIMED['C19'] = dict(
          'reshape/flatten/put in both orders, sum/min/max/argmax along each axis, dot incl. the vector inner-product rule, '
          'hstack/vstack/concatenate, copy, setitem, conversion round trip, list_to_int) on shapes up to 4x4 with mixed '
          'element widths 1..8 against integer-matrix arithmetic modulo 2^bits of the result, comparing shape and bits as '
-         'well; + * @ must be exact. The operations themselves have no Lean model.',
+         'well; + * @ must be exact; random histories of in-place operations (+= -= *= @= **=), element/width assignment and '
+         'observations on one Matrix object against the integer-matrix history. The operations themselves have no Lean model.',
     design='4 C19',
     note=NOTE_COMMON + 'Matrix element circuits are evaluated by FastSimulation (tied to the semantics by C02).',
     technique='Lean 4 proof (index and width arithmetic) + integer-matrix oracle over a shape/width grid')
